@@ -163,6 +163,26 @@ theorem C02_all_early_witness_twice :
     (fresh [1, 0]).firedAt (fun _ => 0) [.arrive 0, .arrive 1] 0 = true ∧
     (fresh [1, 0]).firedAt (fun _ => 0) [.arrive 0, .arrive 1] 1 = true := by decide
 
+/-- THE REPAIR (`fixes/C02-accumulate-by-identity.patch`: remember the emitter, not its label — in
+the model every emitter is its own label, `lab = id`): never early for every history, no hypothesis -/
+theorem C02_all_never_early_repaired (conns0 : List Nat) (hist : List Ev) (k : Nat)
+    (hfire : (fresh conns0).firedAt id hist k = true) :
+    ∀ e ∈ ((fresh conns0).before id hist k).conns,
+      ∃ j, j ≤ k ∧ hist[j]? = some (.arrive e) ∧
+        ∀ i, j ≤ i → i < k → (fresh conns0).firedAt id hist i = false :=
+  C02_all_never_early id conns0 hist k (fun _ _ _ _ h => h) hfire
+
+/-- … and exactly one run per complete round -/
+theorem C02_all_round_repaired (conns0 : List Nat) (hist : List Ev) (k1 k2 : Nat) (hk : k1 < k2)
+    (h1 : (fresh conns0).firedAt id hist k1 = true) (h2 : (fresh conns0).firedAt id hist k2 = true) :
+    ∀ e ∈ ((fresh conns0).before id hist k2).conns,
+      ∃ j, k1 < j ∧ j ≤ k2 ∧ hist[j]? = some (.arrive e) :=
+  C02_all_round id conns0 hist k1 k2 hk (fun _ _ _ _ h => h) h1 h2
+
+/-- on the witness history of the defect the repaired trigger waits for `b` and fires once -/
+example : (fresh [1, 0]).firedAt id [.arrive 0, .arrive 1] 0 = false ∧
+          (fresh [1, 0]).firedAt id [.arrive 0, .arrive 1] 1 = true := by decide
+
 /-! ## flows -/
 
 /-- REFINEMENT: for every signal graph satisfying `WF` (mirror-image connection lists, distinct labels
@@ -278,6 +298,8 @@ end PwVerif.C02
 #print axioms PwVerif.C02.C02_all_round
 #print axioms PwVerif.C02.C02_all_early_witness
 #print axioms PwVerif.C02.C02_all_early_witness_twice
+#print axioms PwVerif.C02.C02_all_never_early_repaired
+#print axioms PwVerif.C02.C02_all_round_repaired
 #print axioms PwVerif.C02.C02_refines_queue
 #print axioms PwVerif.C02.C02_refines_queue_values
 #print axioms PwVerif.C02.C02_value
